@@ -255,13 +255,21 @@ def _mask_case(args):
                         f"downsample={k}: {type(e).__name__}: {e}",
                         exc=type(e).__name__)
         # ---- filtering disabled: all events are used ----
-        if bits % 7 == 0:
+        if bits % 7 == 0 or bits % 5 == 0:
             ds.config["filtering"]["enable filters"] = False
-            ds.apply_filter()
+            if bits % 7 == 0:
+                # (bits % 5: the switch alone must do, statistics look at
+                # the configuration, not only at the last applied filter)
+                ds.apply_filter()
             full = _new(x, y)
             h, v = statistics.get_statistics(ds, features=["deform"])
             h2, v2 = statistics.get_statistics(full, features=["deform"])
-            if not all(eq(p, q) for p, q in zip(v, v2)):
+            # "Events" / "%-gated" are defined on the applied filter array
+            # itself; without apply_filter() only the feature statistics
+            # are constrained
+            skip = () if bits % 7 == 0 else ("Events", "%-gated")
+            if not all(eq(p, q) for hh, p, q in zip(h, v, v2)
+                       if hh not in skip):
                 bad("dclab.statistics:get_statistics",
                     "filter-disabled-not-all-events", f"{v} vs {v2}")
     return cnt, out
